@@ -10,4 +10,12 @@ import _ "unsafe" // go:linkname
 //go:linkname setMapIter runtime.verifSetMapIter
 func setMapIter(v uintptr)
 
+// setMapDev(at, val): the at-th map iteration begun after the last setMapIter starts at val instead (one deviation).
+//
+//go:linkname setMapDev runtime.verifSetMapDev
+func setMapDev(at, val uintptr)
+
+//go:linkname mapIterCount runtime.verifMapIterCount
+func mapIterCount() uintptr
+
 const haveSeam = true
